@@ -25,6 +25,8 @@ pub enum Policy {
     FlushFault(u8),
     /// one Interrupted before the k-th call
     IntrAt(usize),
+    /// n Interrupted in a row before the k-th call
+    IntrBurst(usize, usize),
     /// the k-th write call accepts about half of what it is offered, the call after it fails
     /// (a device that runs full in the middle of one buffer)
     ShortThenFault(usize, u8),
@@ -43,6 +45,7 @@ pub struct ScriptedSink {
     pub policy: Policy,
     pub rng: StdRng,
     pub interrupted_once: bool,
+    pub burst: usize,
 }
 
 impl io::Write for ScriptedSink {
@@ -93,8 +96,14 @@ impl io::Write for ScriptedSink {
                     res = Err(("interrupted".into(), io::ErrorKind::Interrupted));
                 }
             }
+            Policy::IntrBurst(i, n) => {
+                if k == i && self.burst < n {
+                    self.burst += 1;
+                    res = Err(("interrupted".into(), io::ErrorKind::Interrupted));
+                }
+            }
         }
-        if !(matches!(self.policy, Policy::IntrAt(_)) && res.is_err()) {
+        if !(matches!(self.policy, Policy::IntrAt(_) | Policy::IntrBurst(_, _)) && res.is_err()) {
             sh.calls += 1;
         }
         let jr = match &res {
@@ -142,7 +151,7 @@ impl io::Write for ScriptedSink {
 /// the reason there are none.
 pub fn build_through(items: &[Kv], set: bool, policy: Policy, seed: u64) -> Result<Vec<u8>, String> {
     let sh = Rc::new(RefCell::new(Shared { events: vec![], bytes: vec![], calls: 0, log_writes: false, dead: true }));
-    let sink = ScriptedSink { sh: sh.clone(), policy, rng: rng(seed, 78), interrupted_once: false };
+    let sink = ScriptedSink { sh: sh.clone(), policy, rng: rng(seed, 78), interrupted_once: false, burst: 0 };
     let r = guard(|| -> Result<(), fst::Error> {
         let mut b = Builder::new_type(sink, 0)?;
         for (k, v) in items {
@@ -178,7 +187,7 @@ pub fn run(log: &mut Log, items: &[Kv], set: bool, policy: Policy, prefill: &[u8
     // write-level lock step only makes sense when the builder talks to the scripted sink directly
     let track = track && buffered.is_none();
     let sh = Rc::new(RefCell::new(Shared { events: vec![], bytes: prefill.to_vec(), calls: 0, log_writes: track, dead: false }));
-    let sink = ScriptedSink { sh: sh.clone(), policy: policy.clone(), rng: rng(seed, 77), interrupted_once: false };
+    let sink = ScriptedSink { sh: sh.clone(), policy: policy.clone(), rng: rng(seed, 77), interrupted_once: false, burst: 0 };
     log.ev(json!({"ev": "KNew", "policy": format!("{:?}", policy), "prefill": prefill.len(), "buffered": buffered.map(|n| n as i64).unwrap_or(-1), "set": set}));
     let drain = |log: &mut Log| {
         let evs: Vec<Value> = std::mem::replace(&mut sh.borrow_mut().events, vec![]);
@@ -327,7 +336,7 @@ pub const BULK_FRONTS: &[&str] = &["map_extend_iter", "set_extend_iter", "map_ex
 pub fn run_bulk(log: &mut Log, items: &[Kv], front: &str, policy: Policy, seed: u64) -> usize {
     let set = front.starts_with("set");
     let sh = Rc::new(RefCell::new(Shared { events: vec![], bytes: vec![], calls: 0, log_writes: true, dead: false }));
-    let sink = ScriptedSink { sh: sh.clone(), policy: policy.clone(), rng: rng(seed, 79), interrupted_once: false };
+    let sink = ScriptedSink { sh: sh.clone(), policy: policy.clone(), rng: rng(seed, 79), interrupted_once: false, burst: 0 };
     log.ev(json!({"ev": "KNew", "policy": format!("{:?}", policy), "prefill": 0, "buffered": -1, "set": set, "front": front}));
     let drain = |log: &mut Log| {
         let evs: Vec<Value> = std::mem::replace(&mut sh.borrow_mut().events, vec![]);
@@ -431,6 +440,10 @@ pub fn c07(log: &mut Log, seed: u64, tier: &str) {
         // one Interrupted before every write call
         for pos in 0..w {
             run(log, items, set, Policy::IntrAt(pos), b"", None, seed, true);
+        }
+        // bursts of Interrupted in front of every write call
+        for pos in 0..w {
+            run(log, items, set, Policy::IntrBurst(pos, 3 + pos % 6), b"", None, seed, true);
         }
         // a sink that runs full in the middle of a buffer: bytes_written() still counts what it took
         for pos in 0..w {
